@@ -19,6 +19,7 @@
    addListAndClearOld does).  `chain_ids st t` are the ids recorded in tracker
    t and in all trackers it descends from. *)
 From Goloop Require Import lib.Bytes Model_Locator Proofs_Locator.
+From Goloop Require Import Link_C11.
 Open Scope Z_scope.
 
 (* accepted by CheckTxTimestamp under NewTimestampRange(bts, th) iff bts-th < ts <= bts+th *)
@@ -99,3 +100,45 @@ Theorem C11_pre_fix_maxts_replays_committed :
   exists st', tracker_add_v VPreMaxLe st 3 [(7%N, 110)] false = Some (st', 1%nat, 0%N).
 Proof. exact pre_maxle_replays_committed. Qed.
 Print Assumptions C11_pre_fix_maxts_replays_committed.
+
+(* ---- kernel links (Link_C11.v).  The five kernels are re-generated from
+   service/tschecker.go and common/txlocator/manager.go on every run (tools/go2coq);
+   the window test, the guard of tracker.Has and the maxTSInDB shortcut of the model
+   (variant VCode) ARE the decisions of the current Go code.  i64 x says x is an int64
+   (the Go sum / difference does not overflow); ts_err_of_class maps the classes
+   0 / 1 / 2 of check_ts to nil / ExpiredTransactionError / FutureTransactionError ---- *)
+Theorem C11_kernel_CheckTxTimestamp : forall min max ts,
+  CheckTxTimestamp min max ts = ts_err_of_class (check_ts min max ts).
+Proof. exact check_ts_is_CheckTxTimestamp. Qed.
+Print Assumptions C11_kernel_CheckTxTimestamp.
+
+Theorem C11_kernel_timestampRangeMin : forall bts th ts, i64 (bts - th) ->
+  range_check bts th ts = check_ts (timestampRangeMin bts th) (bts + th) ts.
+Proof. exact range_min_is_kernel. Qed.
+Print Assumptions C11_kernel_timestampRangeMin.
+
+Theorem C11_kernel_timestampRangeMax : forall bts th ts, i64 (bts + th) ->
+  range_check bts th ts = check_ts (bts - th) (timestampRangeMax bts th) ts.
+Proof. exact range_max_is_kernel. Qed.
+Print Assumptions C11_kernel_timestampRangeMax.
+
+(* the window of the theorems above is what NewTimestampRange(bts, th).CheckTx accepts *)
+Theorem C11_kernel_window : forall bts th ts, i64 (bts - th) -> i64 (bts + th) ->
+  (in_window bts th ts <->
+   CheckTxTimestamp (timestampRangeMin bts th) (timestampRangeMax bts th) ts = ts_err_of_class 0).
+Proof. exact in_window_is_kernels. Qed.
+Print Assumptions C11_kernel_window.
+
+Theorem C11_kernel_trackerHasGuard : forall ts lts lth, i64 (lts + lth) ->
+  skip_own VCode ts (lts + lth) = trackerHasGuard ts lts lth.
+Proof. exact skip_own_is_trackerHasGuard. Qed.
+Print Assumptions C11_kernel_trackerHasGuard.
+
+Theorem C11_kernel_locatorCacheMiss : forall l ts,
+  db_skip VCode l ts = locatorCacheMiss l ts.
+Proof. exact db_skip_is_locatorCacheMiss. Qed.
+Print Assumptions C11_kernel_locatorCacheMiss.
+
+Theorem C11_kernel_params : Link_C11.kernel_params_pinned.
+Proof. exact Link_C11.kernel_params_ok. Qed.
+Print Assumptions C11_kernel_params.
